@@ -74,6 +74,11 @@ def build(case: dict, ctx: RunContext | None = None) -> RunContext:
     boot.reset_process_state(sched, job_seed=case.get("job_seed", 0))
     if case.get("noise") == "off":
         noise_off()
+    # the machine's local time zone is part of the simulated environment (POSIX TZ rule, no tzdata needed); UTC unless the case draws one
+    import time as _time
+
+    os.environ["TZ"] = case.get("tz") or "UTC"
+    _time.tzset()
     cfg = case["config"]
     start = parse_ts(cfg["time"]["start_timestamp"])
     stop = parse_ts(cfg["time"]["stop_timestamp"])
